@@ -202,7 +202,8 @@ def gen_part(pid, tier, rep, d):
     beh = gen_streams(d, rep, CLASSES, 2 if quick else 3, 2, 0, "b")
     beh4 = gen_streams(d, rep, [CLASSES[2], CLASSES[5]] if quick else CLASSES, 3, 2, 0 if quick else 1, "c")
     # deeper sharing patterns over the reduced alphabet (3 leaves, 3 containers, nesting depth 3)
-    behr = gen_streams(d, rep, [CLASSES[2], CLASSES[5]] if quick else CLASSES, 5 if quick else 6, 3, 2, "r")
+    # (budget 6 gives 300 000 behaviours per FLAG_REF class: with their wrapped forms and xdis's answers about 60 GB of records)
+    behr = gen_streams(d, rep, [CLASSES[2], CLASSES[5]] if quick else CLASSES, 5, 3, 2, "r")
     seen = set((b["mv"], b["py3"], bytes(bytearray(b["buf"]))) for b in beh)
     deep = []          # the reduced-alphabet behaviours (thorough: about 300 000 per FLAG_REF class)
     for extra_, bucket in ((beh4, None), (behr, deep)):
